@@ -10,7 +10,10 @@ MANIFEST_TEXT = ("Lean 4 theorems for all element sizes, alignments, pool sizes,
                  "allocate never returns a live block, a block is returned again only after it was freed, live blocks are pairwise "
                  "disjoint and aligned for T, ~Pool deletes every chunk exactly once; histories include the refused requests "
                  "(PoolAllocator n != 1, free(nullptr), free of an address outside every chunk, allocation while operator new "
-                 "fails): exactly those are refused and a refusal leaves the pool unchanged; Malloc/AlignedAllocator refuse every "
+                 "fails): exactly those are refused and a refusal leaves the pool unchanged; the intrusive representation "
+                 "(head_ and the next_ word inside every free slot, a transcription of grow/allocate/free) refines the list model "
+                 "for every valid history with arbitrary writes of the owners into their live blocks interleaved (never reads a "
+                 "word it did not write, returns the same blocks); Malloc/AlignedAllocator refuse every "
                  "request whose byte size overflows size_t and otherwise ask for exactly n*sizeof(T) bytes with an alignment that "
                  "suffices for T (MallocAllocator also for over-aligned T); DebugAllocator blocks end exactly at the guard page, "
                  "are aligned, overflow requests are refused, deallocate (with the size or with n = 0) finds every recorded "
@@ -44,7 +47,7 @@ RULE = ("case = one allocator instance (kind x element type from 28 (sizeof,alig
         "debug sizes around page multiples, deallocate with the size or with 0; 3% requests of 4..64 MiB); distinct = distinct "
         "op lines; non-trivial = every case whose oracle ran (unsupported configurations are trivial)")
 ASSUMPTIONS = [
-    "the state machines in lean/DuneVerif/Model/C15.lean are hand-written; their fidelity to the headers rests on this differential run",
+    "the state machines in lean/DuneVerif/Model/C15.lean (intrusive pool IPool = transcription of Pool::grow/allocate/free; list model Pool proved equivalent; allocation list of the debug manager) are hand-written; their fidelity to the headers rests on this differential run, in which the driver executes the intrusive pool and cross-checks it against the list model",
     "slot geometry, request validation and DebugAllocator page arithmetic are regenerated from the headers by tools/translators/tr_c15.py",
     "a formula rewritten in the source into a textually different one that agrees with the form the proofs were written against on the translator's whole grid (sizeof 1..130, alignof 1..128, ~30 pool sizes; counts around max_size; capacities around page multiples) is emitted in that known form, with the source text kept as a comment in Gen/C15.lean; any value difference on the grid emits the source's own expression",
     "LP64 target: sizeof(void*) = alignof(void*) = 8, size_t has 64 bits, alignof(std::max_align_t) = 16, page size 4096 in the corpus files",
